@@ -16,7 +16,7 @@ VERIF = os.path.dirname(os.path.dirname(os.path.abspath(__file__)))
 REPO = os.environ.get('NV_REPO', '/repo')
 SRC = os.path.join(REPO, 'src')
 NVX = os.path.join(VERIF, 'build', 'nvx')
-CACHE = os.path.join(VERIF, '.cache')
+CACHE = os.environ.get('NV_CACHE') or os.path.join(VERIF, '.cache')
 # What _build/build.ninja uses, restated: libninja units get -I src (quoted includes only are
 # used by the sources; -iquote keeps <getopt.h> pointing at the system header as in the real
 # build of ninja.cc, which has no -I); ninja.cc / browse.cc get -DNINJA_HAVE_BROWSE and the
